@@ -2198,6 +2198,33 @@ pub fn interrupt_variant(base: &Scenario, k: u64, id: u64, engine: bool) -> Scen
         }
     };
     s.steps.push(with_stop(&last, Some(k)));
+    // In two of three variants a constraint that holds for every assignment is posted between the
+    // interrupted call and the retry: a propagator that is registered while the interrupted solve
+    // left unprocessed events behind (e.g. a unit nogood posted at the root just before the stop)
+    if id % 3 != 0 {
+        let mut terms: Vec<View> = vec![];
+        let mut bound: i32 = 3;
+        let mut v = 1u32;
+        for st in s.steps.iter() {
+            match st {
+                Step::NewVar { vals, .. } => {
+                    v += 1;
+                    if id % 3 == 1 {
+                        terms.push(View::var(v));
+                        bound += *vals.iter().max().unwrap();
+                    } else {
+                        terms.push(View { v, s: -1, o: 0 });
+                        bound -= *vals.iter().min().unwrap();
+                    }
+                }
+                Step::NewLit | Step::NewLitPred { .. } => v += 1,
+                _ => {}
+            }
+        }
+        if !terms.is_empty() {
+            s.steps.push(Step::Post { c: Cons::LinLe { terms, rhs: bound }, tag: None });
+        }
+    }
     s.steps.push(with_stop(&last, None));
     s
 }
